@@ -181,6 +181,11 @@ fn check_case(case: &Case, out: &mut RunOut) {
             if li != ld {
                 out.violation("C14:lazy-values-not-destroyed-in-their-iteration", format!("iteration {}: {} lazy statics initialised, {} destroyed", i, li, ld), cj.clone());
             }
+            let ci = cnt("CI", "");
+            let cd = cnt("CD", "");
+            if ci != cd {
+                out.violation("C14:captured-values-not-destroyed-in-their-iteration", format!("iteration {}: {} thread closures created with a captured value, {} captured values dropped (the closure of a task that never started must be dropped with the execution)", i, ci, cd), cj.clone());
+            }
             let b = cnt("B", "");
             let sd = cnt("SD", "");
             if b != sd {
